@@ -22,6 +22,7 @@ fn dispatch(op: &str, args: &[Sexp]) -> String {
     match op {
         "f.enc" => crate::props::c15::op_enc(args),
         "f.dec" => crate::props::c15::op_dec(args),
+        "geom.contains" => crate::props::c13::op_contains(args),
         "dep.generic" => crate::props::c17::op_generic(args),
         "dep.raw" => crate::props::c17::op_raw(args),
         "dep.tetris" => crate::props::c17::op_tetris(args),
